@@ -1,5 +1,747 @@
-//! C15 — not implemented yet.
+//! C15 — fixed-width big integers are integers modulo 2^(64N) with exact carry flags;
+//! NAF / relaxed-NAF / wNAF recodings reconstruct the value and obey their digit constraints.
+#![allow(deprecated)]
+use ark_ff::biginteger::arithmetic::{find_naf, find_relaxed_naf};
+use ark_ff::{BigInt, BigInteger, BitIteratorBE, BitIteratorLE};
+use num_bigint::{BigInt as SBig, BigUint};
+use num_traits::{One, Zero};
+use std::str::FromStr;
+use vh_core::engine::{no_panic, Obs, PropSpec, Rel, Tape, Tier, R};
+use vh_core::gen::{edge_int, edge_limbs};
+use vh_core::modint::{big, pow2, to_limbs};
+use vh_core::{ensure, ensure_eq};
+
+fn hx(v: &BigUint) -> String {
+    format!("0x{:x}", v)
+}
+
+/// value mod 2^(64N) as N limbs
+fn arr<const N: usize>(v: &BigUint) -> [u64; N] {
+    let r = v % pow2(64 * N);
+    let l = to_limbs(&r, N);
+    let mut a = [0u64; N];
+    a.copy_from_slice(&l);
+    a
+}
+
+// ---------------------------------------------------------------------------------------
+// generators (by construction; word 0 => zero)
+// ---------------------------------------------------------------------------------------
+
+/// bit position in [0, 64n): half of the time next to a limb boundary
+fn gen_bitpos(t: &mut Tape<'_>, n: usize) -> usize {
+    if t.bool() {
+        let j = t.below(n as u64) as usize;
+        let d = t.pick(&[0usize, 1, 62, 63]);
+        64 * j + d
+    } else {
+        t.below(64 * n as u64) as usize
+    }
+}
+
+fn gen_limbs(t: &mut Tape<'_>, n: usize) -> (Vec<u64>, &'static str) {
+    let mut l = vec![0u64; n];
+    if n == 0 {
+        return (l, "empty");
+    }
+    let cls = match t.weighted(&[2, 2, 2, 4, 4, 2, 2, 3, 3, 2, 8]) {
+        0 => "zero",
+        1 => {
+            l[0] = 1;
+            "one"
+        },
+        2 => {
+            l[0] = 2 + t.below(2);
+            "two-three"
+        },
+        3 => {
+            let k = gen_bitpos(t, n);
+            l[k / 64] = 1u64 << (k % 64);
+            "2^k"
+        },
+        4 => {
+            // 2^k - 1 for k in 1..=64n
+            let k = gen_bitpos(t, n) + 1;
+            for i in 0..k {
+                l[i / 64] |= 1u64 << (i % 64);
+            }
+            "2^k-1"
+        },
+        5 => {
+            l.iter_mut().for_each(|x| *x = u64::MAX);
+            "all-ones"
+        },
+        6 => {
+            let pat = t.below(4);
+            for (i, x) in l.iter_mut().enumerate() {
+                *x = match pat {
+                    0 => {
+                        if i % 2 == 0 {
+                            u64::MAX
+                        } else {
+                            0
+                        }
+                    },
+                    1 => {
+                        if i % 2 == 0 {
+                            0
+                        } else {
+                            u64::MAX
+                        }
+                    },
+                    2 => 0xaaaa_aaaa_aaaa_aaaa,
+                    _ => 0x5555_5555_5555_5555,
+                };
+            }
+            "alternating"
+        },
+        7 => {
+            // 2^(64n) - 1 - small
+            l.iter_mut().for_each(|x| *x = u64::MAX);
+            l[0] = u64::MAX - t.below(1 << 16);
+            "near-top"
+        },
+        8 => {
+            l = edge_limbs(t, n);
+            "edge-limbs"
+        },
+        9 => {
+            l[0] = t.below(1 << 16);
+            "small"
+        },
+        _ => {
+            l = t.limbs(n);
+            "uniform"
+        },
+    };
+    (l, cls)
+}
+
+fn gen_val<const N: usize>(t: &mut Tape<'_>) -> ([u64; N], &'static str) {
+    let (l, c) = gen_limbs(t, N);
+    let mut a = [0u64; N];
+    a.copy_from_slice(&l);
+    (a, c)
+}
+
+/// second operand: sometimes correlated with the first (same, complement, negation, neighbours)
+fn gen_second<const N: usize>(t: &mut Tape<'_>, a: &[u64; N]) -> ([u64; N], &'static str) {
+    if t.chance(1, 5) {
+        let m = pow2(64 * N);
+        let av = big(a);
+        match t.below(5) {
+            0 => (*a, "b=a"),
+            1 => {
+                let mut b = *a;
+                b.iter_mut().for_each(|x| *x = !*x);
+                (b, "b=!a")
+            },
+            2 => (arr::<N>(&(&m - &av)), "b=-a"),
+            3 => (arr::<N>(&(&av + 1u32)), "b=a+1"),
+            _ => (arr::<N>(&(&m + &av - 1u32)), "b=a-1"),
+        }
+    } else {
+        gen_val::<N>(t)
+    }
+}
+
+// ---------------------------------------------------------------------------------------
+// add / sub / double / halve / compare / bit-wise / predicates
+// ---------------------------------------------------------------------------------------
+
+/// (some carry leaves a limb, some borrow leaves a limb)
+fn limb_crossings(a: &[u64], b: &[u64]) -> (bool, bool) {
+    let (mut c, mut anyc) = (0u128, false);
+    let (mut bo, mut anyb) = (0i128, false);
+    for i in 0..a.len() {
+        let s = a[i] as u128 + b[i] as u128 + c;
+        c = s >> 64;
+        anyc |= c != 0;
+        let d = a[i] as i128 - b[i] as i128 - bo;
+        bo = (d < 0) as i128;
+        anyb |= bo != 0;
+    }
+    (anyc, anyb)
+}
+
+fn arith<const N: usize>(t: &mut Tape<'_>, o: &mut Obs) -> R {
+    let m = pow2(64 * N);
+    let (a, ac) = gen_val::<N>(t);
+    let (b, bc) = gen_second::<N>(t, &a);
+    let (av, bv) = (big(&a), big(&b));
+    let (x, y) = (BigInt::<N>::new(a), BigInt::<N>::new(b));
+    o.show(|| format!("N={} a={} [{}] b={} [{}]", N, hx(&av), ac, hx(&bv), bc));
+    let (anyc, anyb) = limb_crossings(&a, &b);
+    o.nt(anyc || anyb);
+    o.class(ac);
+    o.class_if(bc.starts_with("b="), "correlated-second-operand");
+    o.class_if(&av + &bv >= m, "add-carry-out");
+    o.class_if(av < bv, "sub-borrow-out");
+    o.class_if(anyc && &av + &bv < m, "internal-carry-only");
+    o.evals(30);
+
+    // add_with_carry: value and flag
+    let sum = &av + &bv;
+    let mut z = x;
+    let carry = z.add_with_carry(&y);
+    ensure_eq!(big(&z.0), &sum % &m, "add_with_carry.value");
+    ensure_eq!(carry, sum >= m, "add_with_carry.flag");
+    // sub_with_borrow: value and flag
+    let mut z = x;
+    let borrow = z.sub_with_borrow(&y);
+    let diff = if av >= bv { &av - &bv } else { &m + &av - &bv };
+    ensure_eq!(big(&z.0), diff, "sub_with_borrow.value");
+    ensure_eq!(borrow, av < bv, "sub_with_borrow.flag");
+    // mul2 / div2
+    let mut z = x;
+    let c2 = z.mul2();
+    ensure_eq!(big(&z.0), (&av << 1usize) % &m, "mul2.value");
+    ensure_eq!(c2, (&av << 1usize) >= m, "mul2.flag");
+    let mut z = x;
+    z.div2();
+    ensure_eq!(big(&z.0), &av >> 1usize, "div2");
+    // comparison
+    ensure_eq!(x.cmp(&y), av.cmp(&bv), "cmp");
+    ensure_eq!(x.partial_cmp(&y), Some(av.cmp(&bv)), "partial_cmp");
+    ensure_eq!(x == y, av == bv, "eq");
+    ensure_eq!(x < y, av < bv, "lt");
+    ensure_eq!(x >= y, av >= bv, "ge");
+    // bit-wise operators (by value, by reference, assigning)
+    ensure_eq!(big(&(x & y).0), &av & &bv, "bitand");
+    ensure_eq!(big(&(x | y).0), &av | &bv, "bitor");
+    ensure_eq!(big(&(x ^ y).0), &av ^ &bv, "bitxor");
+    ensure_eq!(big(&(x & &y).0), &av & &bv, "bitand.ref");
+    ensure_eq!(big(&(x | &y).0), &av | &bv, "bitor.ref");
+    ensure_eq!(big(&(x ^ &y).0), &av ^ &bv, "bitxor.ref");
+    let mut z = x;
+    z &= y;
+    ensure_eq!(big(&z.0), &av & &bv, "bitand_assign");
+    let mut z = x;
+    z |= &y;
+    ensure_eq!(big(&z.0), &av | &bv, "bitor_assign");
+    let mut z = x;
+    z ^= y;
+    ensure_eq!(big(&z.0), &av ^ &bv, "bitxor_assign");
+    ensure_eq!(big(&(!x).0), &m - 1u32 - &av, "not");
+    // predicates
+    ensure_eq!(x.is_zero(), av.is_zero(), "is_zero");
+    ensure_eq!(x.is_odd(), av.bit(0), "is_odd");
+    ensure_eq!(x.is_even(), !av.bit(0), "is_even");
+    ensure_eq!(x.num_bits() as u64, av.bits(), "num_bits");
+    let idx = [0usize, 1, 63, 64, 65, 64 * N - 1, 64 * N, 64 * N + 1, usize::MAX, t.below(64 * N as u64 + 64) as usize];
+    for i in idx {
+        let want = i < 64 * N && av.bit(i as u64);
+        ensure!(x.get_bit(i) == want, "get_bit", "get_bit({}) of {} = {} expected {}", i, hx(&av), !want, want);
+    }
+    // small-integer constructors
+    let w = a[0];
+    ensure_eq!(big(&BigInt::<N>::from(w).0), BigUint::from(w), "from_u64");
+    ensure_eq!(big(&BigInt::<N>::from(w as u32).0), BigUint::from(w as u32), "from_u32");
+    ensure_eq!(big(&BigInt::<N>::from(w as u16).0), BigUint::from(w as u16), "from_u16");
+    ensure_eq!(big(&BigInt::<N>::from(w as u8).0), BigUint::from(w as u8), "from_u8");
+    Ok(())
+}
+
+// ---------------------------------------------------------------------------------------
+// shifts
+// ---------------------------------------------------------------------------------------
+
+fn shift<const N: usize>(t: &mut Tape<'_>, o: &mut Obs) -> R {
+    let m = pow2(64 * N);
+    let (a, ac) = gen_val::<N>(t);
+    let w = 64 * N as u64;
+    let n: u32 = match t.weighted(&[1, 1, 1, 1, 1, 1, 1, 1, 1, 2, 5]) {
+        0 => 0,
+        1 => 1,
+        2 => 63,
+        3 => 64,
+        4 => 65,
+        5 => (w - 1) as u32,
+        6 => w as u32,
+        7 => (w + 1) as u32,
+        8 => u32::MAX,
+        9 => (64 * t.below(N as u64 + 2)) as u32,
+        _ => t.below(w + 66) as u32,
+    };
+    let av = big(&a);
+    let x = BigInt::<N>::new(a);
+    o.show(|| format!("N={} a={} [{}] shift={}", N, hx(&av), ac, n));
+    let sub = (n % 64) as u32;
+    let crosses_l = sub > 0 && a.iter().any(|l| l >> (64 - sub) != 0);
+    let crosses_r = sub > 0 && a.iter().any(|l| l << (64 - sub) != 0);
+    o.nt(!av.is_zero() && n > 0 && (n >= 64 || crosses_l || crosses_r));
+    o.class(ac);
+    o.class_if(n >= 64, "shift>=64");
+    o.class_if(n as u64 >= w, "shift>=64N");
+    o.class_if(n > 0 && n % 64 == 0, "shift-multiple-of-64");
+    o.evals(6);
+    let (want_l, want_r) = if n as u64 >= w { (BigUint::zero(), BigUint::zero()) } else { ((&av << n as usize) % &m, &av >> n as usize) };
+    ensure_eq!(big(&(x << n).0), want_l, "shl");
+    let mut z = x;
+    z <<= n;
+    ensure_eq!(big(&z.0), want_l, "shl_assign");
+    let mut z = x;
+    z.muln(n);
+    ensure_eq!(big(&z.0), want_l, "muln");
+    ensure_eq!(big(&(x >> n).0), want_r, "shr");
+    let mut z = x;
+    z >>= n;
+    ensure_eq!(big(&z.0), want_r, "shr_assign");
+    let mut z = x;
+    z.divn(n);
+    ensure_eq!(big(&z.0), want_r, "divn");
+    Ok(())
+}
+
+// ---------------------------------------------------------------------------------------
+// multiplication
+// ---------------------------------------------------------------------------------------
+
+fn mul<const N: usize>(t: &mut Tape<'_>, o: &mut Obs) -> R {
+    let m = pow2(64 * N);
+    let (a, ac) = gen_val::<N>(t);
+    let (b, bc) = gen_second::<N>(t, &a);
+    let (av, bv) = (big(&a), big(&b));
+    let (x, y) = (BigInt::<N>::new(a), BigInt::<N>::new(b));
+    o.show(|| format!("N={} a={} [{}] b={} [{}]", N, hx(&av), ac, hx(&bv), bc));
+    let prod = &av * &bv;
+    o.nt(prod.bits() > 64);
+    o.class(ac);
+    o.class_if(prod >= m, "product-overflows-width");
+    o.class_if(av.is_zero() || bv.is_zero(), "zero-operand");
+    o.evals(4);
+    let (lo, hi) = x.mul(&y);
+    ensure_eq!(big(&lo.0), &prod % &m, "mul.lo");
+    ensure_eq!(big(&hi.0), &prod >> (64 * N), "mul.hi");
+    ensure_eq!(big(&x.mul_low(&y).0), &prod % &m, "mul_low");
+    ensure_eq!(big(&x.mul_high(&y).0), &prod >> (64 * N), "mul_high");
+    Ok(())
+}
+
+// ---------------------------------------------------------------------------------------
+// conversions: bits, bytes, strings, BigUint, iterators
+// ---------------------------------------------------------------------------------------
+
+fn bits_le_of(v: &BigUint, len: usize) -> Vec<bool> {
+    (0..len).map(|i| v.bit(i as u64)).collect()
+}
+
+fn conv<const N: usize>(t: &mut Tape<'_>, o: &mut Obs) -> R {
+    let m = pow2(64 * N);
+    match t.below(4) {
+        0 => {
+            // BigInt -> bits / bytes / BigUint / strings
+            let (a, ac) = gen_val::<N>(t);
+            let av = big(&a);
+            let x = BigInt::<N>::new(a);
+            o.show(|| format!("N={} to_bits/to_bytes/Display of {} [{}]", N, hx(&av), ac));
+            o.nt(av.bits() > 64 || (N == 1 && av.bits() > 1));
+            o.class(ac);
+            o.evals(14);
+            let le = bits_le_of(&av, 64 * N);
+            let mut be = le.clone();
+            be.reverse();
+            ensure_eq!(x.to_bits_le(), le, "to_bits_le");
+            ensure_eq!(x.to_bits_be(), be, "to_bits_be");
+            let mut bytes = av.to_bytes_le();
+            if av.is_zero() {
+                bytes.clear();
+            }
+            bytes.resize(8 * N, 0);
+            ensure_eq!(x.to_bytes_le(), bytes, "to_bytes_le");
+            bytes.reverse();
+            ensure_eq!(x.to_bytes_be(), bytes, "to_bytes_be");
+            ensure_eq!(BitIteratorLE::new(x).collect::<Vec<_>>(), le, "BitIteratorLE");
+            ensure_eq!(BitIteratorBE::new(x).collect::<Vec<_>>(), be, "BitIteratorBE");
+            let nb = av.bits() as usize;
+            let sig_le = bits_le_of(&av, nb);
+            let mut sig_be = sig_le.clone();
+            sig_be.reverse();
+            ensure_eq!(BitIteratorLE::without_trailing_zeros(x).collect::<Vec<_>>(), sig_le, "BitIteratorLE.without_trailing_zeros");
+            ensure_eq!(BitIteratorBE::without_leading_zeros(x).collect::<Vec<_>>(), sig_be, "BitIteratorBE.without_leading_zeros");
+            let bu: BigUint = x.into();
+            ensure_eq!(bu, av, "into_biguint");
+            let sb: SBig = x.into();
+            ensure_eq!(sb, SBig::from(av.clone()), "into_bigint");
+            ensure_eq!(x.to_string(), av.to_string(), "display");
+            let hexs = format!("{:X}", x);
+            ensure!(
+                BigUint::parse_bytes(hexs.as_bytes(), 16).as_ref() == Some(&av) && hexs == hexs.to_uppercase(),
+                "upper_hex",
+                "{{:X}} of {} = {:?}",
+                hx(&av),
+                hexs
+            );
+            ensure_eq!(x.as_ref(), &a[..], "as_ref");
+            let back = BigInt::<N>::from_str(&x.to_string());
+            ensure!(back == Ok(x), "from_str.roundtrip", "from_str(to_string({})) = {:?}", hx(&av), back);
+            Ok(())
+        },
+        1 => {
+            // bit vectors -> BigInt. Shorter, equal and longer than 64N; bits beyond 64N are zero (the value fits).
+            let (a, ac) = gen_val::<N>(t);
+            let len = match t.weighted(&[1, 3, 3, 3]) {
+                0 => 0,
+                1 => t.below(64 * N as u64) as usize,
+                2 => 64 * N,
+                _ => 64 * N + 1 + t.below(130) as usize,
+            };
+            let v = big(&a) % pow2(len.min(64 * N));
+            o.show(|| format!("N={} from_bits_le/be of {} bits, value {} [{}]", N, len, hx(&v), ac));
+            o.nt(len != 64 * N && v.bits() > 1);
+            o.class(ac);
+            o.class_if(len < 64 * N, "bits-shorter-than-width");
+            o.class_if(len > 64 * N, "bits-longer-than-width");
+            o.evals(2);
+            let le = bits_le_of(&v, len);
+            let mut be = le.clone();
+            be.reverse();
+            ensure_eq!(big(&BigInt::<N>::from_bits_le(&le).0), v, "from_bits_le");
+            ensure_eq!(big(&BigInt::<N>::from_bits_be(&be).0), v, "from_bits_be");
+            Ok(())
+        },
+        2 => {
+            // decimal strings and BigUint, around 2^(64N): error iff too wide
+            let v = match t.weighted(&[3, 3, 2, 2]) {
+                0 => big(&gen_val::<N>(t).0),
+                1 => {
+                    let d = t.below(5);
+                    &m + d - 2u32
+                },
+                2 => big(&edge_int(t, N + 1)),
+                _ => (&m << t.below(70) as usize) - t.below(2),
+            };
+            let zeros = match t.below(3) {
+                0 => 0,
+                1 => 1,
+                _ => 1 + t.below(24) as usize,
+            };
+            let s = format!("{}{}", "0".repeat(zeros), v);
+            o.show(|| format!("N={} from_str({:?}) / try_from", N, s));
+            let fits = v < m;
+            o.nt(v.bits() > 64 || !fits);
+            o.class_if(!fits, "too-wide");
+            o.class_if(fits && v.bits() as usize > 64 * N - 8, "fits-top-byte-used");
+            o.class_if(zeros > 0, "leading-zeros");
+            o.evals(3);
+            let r = BigInt::<N>::from_str(&s);
+            let r2 = BigInt::<N>::try_from(v.clone());
+            if fits {
+                match r {
+                    Ok(x) => {
+                        ensure_eq!(big(&x.0), v, "from_str.value");
+                        ensure_eq!(x.to_string(), v.to_string(), "display");
+                    },
+                    Err(()) => return vh_core::fail("from_str.rejects-fitting", format!("from_str({:?}) = Err", s)),
+                }
+                match r2 {
+                    Ok(x) => ensure_eq!(big(&x.0), v, "try_from_biguint.value"),
+                    Err(()) => return vh_core::fail("try_from_biguint.rejects-fitting", format!("try_from({}) = Err", hx(&v))),
+                }
+            } else {
+                ensure!(r.is_err(), "from_str.accepts-too-wide", "from_str({:?}) = {:?}", s, r);
+                ensure!(r2.is_err(), "try_from_biguint.accepts-too-wide", "try_from({}) = {:?}", hx(&v), r2);
+            }
+            // text that is not a non-negative decimal integer
+            let bad = t.pick(&["", "-1", "0x10", "12a", " 1", "1 ", "--", "1.0"]);
+            ensure!(BigInt::<N>::from_str(bad).is_err(), "from_str.accepts-malformed", "from_str({:?}) is Ok", bad);
+            Ok(())
+        },
+        _ => {
+            // bit iterators over limb slices of any length (0..=N+1 limbs)
+            let n = t.below(N as u64 + 2) as usize;
+            let (l, lc) = gen_limbs(t, n);
+            let v = big(&l);
+            o.show(|| format!("BitIterator over {} limbs {} [{}]", n, hx(&v), lc));
+            o.nt(v.bits() > 64);
+            o.class(lc);
+            o.evals(4);
+            let le = bits_le_of(&v, 64 * n);
+            let mut be = le.clone();
+            be.reverse();
+            ensure_eq!(BitIteratorLE::new(&l).collect::<Vec<_>>(), le, "BitIteratorLE.slice");
+            ensure_eq!(BitIteratorBE::new(&l).collect::<Vec<_>>(), be, "BitIteratorBE.slice");
+            let sig_le = bits_le_of(&v, v.bits() as usize);
+            let mut sig_be = sig_le.clone();
+            sig_be.reverse();
+            ensure_eq!(BitIteratorLE::without_trailing_zeros(&l).collect::<Vec<_>>(), sig_le, "BitIteratorLE.without_trailing_zeros.slice");
+            ensure_eq!(BitIteratorBE::without_leading_zeros(&l).collect::<Vec<_>>(), sig_be, "BitIteratorBE.without_leading_zeros.slice");
+            Ok(())
+        },
+    }
+}
+
+// ---------------------------------------------------------------------------------------
+// the `const fn` twins, called at run time through their public wrappers
+// ---------------------------------------------------------------------------------------
+
+fn consts<const N: usize>(t: &mut Tape<'_>, o: &mut Obs) -> R {
+    if t.below(2) == 0 {
+        // helpers that take any value
+        let (a, ac) = gen_val::<N>(t);
+        let av = big(&a);
+        let x = BigInt::<N>::new(a);
+        o.show(|| format!("N={} const helpers on {} [{}]", N, hx(&av), ac));
+        o.nt(av.bits() > 64 || (N == 1 && av.bits() > 1));
+        o.class(ac);
+        o.evals(10);
+        ensure_eq!(x.0, a, "new");
+        ensure_eq!(big(&BigInt::<N>::zero().0), BigUint::zero(), "zero");
+        ensure_eq!(big(&BigInt::<N>::one().0), BigUint::one(), "one");
+        ensure_eq!(x.const_is_even(), !av.bit(0), "const_is_even");
+        ensure_eq!(x.const_is_odd(), av.bit(0), "const_is_odd");
+        ensure_eq!(BigUint::from(x.mod_4()), &av % 4u32, "mod_4");
+        ensure_eq!(big(&x.const_shr().0), &av >> 1usize, "const_shr");
+        ensure_eq!(big(&x.divide_by_2_round_down().0), &av >> 1usize, "divide_by_2_round_down");
+        if a[N - 1] != 0 {
+            // `const_num_bits` is only used on moduli (top limb non-zero); see NOTES.md
+            o.class("const_num_bits-checked");
+            ensure_eq!(x.const_num_bits() as u64, av.bits(), "const_num_bits");
+        }
+        Ok(())
+    } else {
+        // helpers that take an odd modulus >= 3
+        let (mut p, pc) = gen_val::<N>(t);
+        p[0] |= 1;
+        if big(&p).is_one() {
+            p[0] = 3;
+        }
+        let pv = big(&p);
+        let x = BigInt::<N>::new(p);
+        o.show(|| format!("N={} montgomery_r/r2, two_adic_* of odd modulus {} [{}]", N, hx(&pv), pc));
+        o.nt(pv.bits() > 64 || (N == 1 && pv.bits() > 2));
+        o.class(pc);
+        o.class_if(p[N - 1] >> 63 == 1, "modulus-without-spare-bit");
+        o.class_if(p[N - 1] == 0, "modulus-with-zero-top-limb");
+        o.evals(4);
+        let r = no_panic("montgomery_r", || x.montgomery_r())?;
+        ensure_eq!(big(&r.0), pow2(64 * N) % &pv, "montgomery_r");
+        let r2 = no_panic("montgomery_r2", || x.montgomery_r2())?;
+        ensure_eq!(big(&r2.0), pow2(128 * N) % &pv, "montgomery_r2");
+        let pm1 = &pv - 1u32;
+        let s = pm1.trailing_zeros().unwrap();
+        ensure_eq!(x.two_adic_valuation() as u64, s, "two_adic_valuation");
+        ensure_eq!(big(&x.two_adic_coefficient().0), &pm1 >> s as usize, "two_adic_coefficient");
+        Ok(())
+    }
+}
+
+// ---------------------------------------------------------------------------------------
+// signed-digit recodings
+// ---------------------------------------------------------------------------------------
+
+/// Σ d_i 2^i over the integers
+fn recon<I: DoubleEndedIterator<Item = i64>>(digits: I) -> SBig {
+    let mut acc = SBig::zero();
+    for d in digits.rev() {
+        acc <<= 1usize;
+        acc += d;
+    }
+    acc
+}
+
+/// the unique non-adjacent form: d_i = bit_{i+1}(3v) - bit_{i+1}(v)
+fn naf_oracle(v: &BigUint) -> Vec<i8> {
+    let h = v * 3u32;
+    let n = h.bits();
+    let mut out: Vec<i8> = (0..n).map(|i| h.bit(i + 1) as i8 - v.bit(i + 1) as i8).collect();
+    while out.last() == Some(&0) {
+        out.pop();
+    }
+    out
+}
+
+fn check_naf(v: &BigUint, naf: &[i8], what: &str) -> R {
+    ensure!(naf.iter().all(|d| (-1..=1).contains(d)), format!("{}.digit-range", what), "{} of {} has a digit outside {{-1,0,1}}: {:?}", what, hx(v), naf);
+    let got = recon(naf.iter().map(|d| *d as i64));
+    ensure!(got == SBig::from(v.clone()), format!("{}.value", what), "{} of {} reconstructs to {} (digits LE {:?})", what, hx(v), got, naf);
+    Ok(())
+}
+
+fn naf_case(l: &[u64], lc: &'static str, o: &mut Obs) -> R {
+    let v = big(l);
+    o.show(|| format!("find_naf / find_relaxed_naf of {} limbs {} [{}]", l.len(), hx(&v), lc));
+    o.class(lc);
+    o.evals(8);
+    let naf = no_panic("find_naf", || find_naf(l))?;
+    check_naf(&v, &naf, "naf")?;
+    for i in 1..naf.len() {
+        ensure!(naf[i] == 0 || naf[i - 1] == 0, "naf.adjacent", "find_naf({}) has adjacent non-zero digits at {} (LE {:?})", hx(&v), i - 1, naf);
+    }
+    ensure!(naf.len() as u64 <= v.bits() + 1, "naf.length", "find_naf({}) has {} digits for a {}-bit value", hx(&v), naf.len(), v.bits());
+    let mut trimmed = naf.clone();
+    while trimmed.last() == Some(&0) {
+        trimmed.pop();
+    }
+    ensure!(trimmed == naf_oracle(&v), "naf.canonical", "find_naf({}) = {:?} is not the canonical NAF {:?}", hx(&v), naf, naf_oracle(&v));
+    o.nt(v.bits() > 2 && naf.iter().any(|d| *d < 0));
+    o.class_if(naf.len() as u64 == v.bits() + 1, "naf-longer-than-binary");
+    o.class_if(!l.is_empty() && naf.len() == 64 * l.len() + 1, "naf-digit-beyond-width");
+
+    let rel = no_panic("find_relaxed_naf", || find_relaxed_naf(l))?;
+    check_naf(&v, &rel, "relaxed_naf")?;
+    ensure!(rel.len() <= naf.len(), "relaxed_naf.length", "relaxed NAF of {} is longer ({}) than the NAF ({})", hx(&v), rel.len(), naf.len());
+    for i in 1..rel.len() {
+        // adjacency is allowed only between the two most significant digits
+        ensure!(rel[i] == 0 || rel[i - 1] == 0 || i == rel.len() - 1, "relaxed_naf.adjacent", "find_relaxed_naf({}) has adjacent non-zero digits at {} below the top (LE {:?})", hx(&v), i - 1, rel);
+    }
+    o.class_if(rel.len() < naf.len(), "relaxed-naf-shorter");
+    Ok(())
+}
+
+fn naf_rel(n: usize, t: &mut Tape<'_>, o: &mut Obs) -> R {
+    let n = if n == 1 && t.chance(1, 40) { 0 } else { n };
+    let (l, lc) = gen_limbs(t, n);
+    naf_case(&l, lc, o)
+}
+
+fn check_wnaf(v: &BigUint, w: usize, d: &[i64]) -> R {
+    let got = recon(d.iter().copied());
+    ensure!(got == SBig::from(v.clone()), "wnaf.value", "find_wnaf({}) of {} reconstructs to {} (digits LE {:?})", w, hx(v), got, d);
+    let bound = 1i64 << (w - 1);
+    let mut last: Option<usize> = None;
+    for (i, x) in d.iter().enumerate() {
+        if *x != 0 {
+            ensure!(x & 1 == 1, "wnaf.even-digit", "find_wnaf({}) of {}: digit {} at {} is even", w, hx(v), x, i);
+            ensure!(x.unsigned_abs() < bound as u64, "wnaf.digit-range", "find_wnaf({}) of {}: |digit {}| at {} >= 2^{}", w, hx(v), x, i, w - 1);
+            if let Some(j) = last {
+                ensure!(i - j >= w, "wnaf.window", "find_wnaf({}) of {}: non-zero digits at {} and {} share a window", w, hx(v), j, i);
+            }
+            last = Some(i);
+        }
+    }
+    Ok(())
+}
+
+fn gen_window(t: &mut Tape<'_>, max: u64) -> usize {
+    match t.weighted(&[3, 1, 1, 1, 4]) {
+        0 => t.range(2, 8.min(max)) as usize,
+        1 => 2,
+        2 => max as usize,
+        3 => (max - 1) as usize,
+        _ => t.range(2, max) as usize,
+    }
+}
+
+/// value for a window `w`: general classes plus values within 2^(w-1) of 2^(64N)
+fn gen_wnaf_val<const N: usize>(t: &mut Tape<'_>, w: usize) -> ([u64; N], &'static str) {
+    if t.chance(1, 3) {
+        let mut a = [u64::MAX; N];
+        let d = match t.below(3) {
+            0 => 0,
+            1 => t.below(4),
+            _ => t.below(1u64 << (w - 1)),
+        };
+        a[0] = u64::MAX - d;
+        (a, "within-2^(w-1)-of-top")
+    } else {
+        gen_val::<N>(t)
+    }
+}
+
+fn wnaf_case<const N: usize>(a: [u64; N], ac: &'static str, w: usize, o: &mut Obs) -> R {
+    let av = big(&a);
+    let x = BigInt::<N>::new(a);
+    o.show(|| format!("N={} find_wnaf({}) of {} [{}]", N, w, hx(&av), ac));
+    o.class(ac);
+    o.evals(4);
+    let d = match no_panic("find_wnaf", || x.find_wnaf(w))? {
+        Some(d) => d,
+        None => return vh_core::fail("wnaf.none", format!("find_wnaf({}) = None", w)),
+    };
+    check_wnaf(&av, w, &d)?;
+    o.nt(av.bits() > 2 && d.iter().any(|x| *x < 0));
+    o.class_if(d.len() == 64 * N + 1, "wnaf-digit-beyond-width");
+    o.class_if(w >= 32, "window>=32");
+    Ok(())
+}
+
+fn wnaf<const N: usize>(t: &mut Tape<'_>, o: &mut Obs) -> R {
+    if t.chance(1, 16) {
+        // invalid windows: documented `None`
+        let w = t.pick(&[0usize, 1, 64, 65, 128, usize::MAX]);
+        let (a, _) = gen_val::<N>(t);
+        o.show(|| format!("N={} find_wnaf({}) must be None", N, w));
+        o.class("invalid-window");
+        let r = no_panic("find_wnaf", || BigInt::<N>::new(a).find_wnaf(w))?;
+        ensure!(r.is_none(), "wnaf.invalid-window", "find_wnaf({}) = Some", w);
+        return Ok(());
+    }
+    let w = gen_window(t, 62);
+    let (a, ac) = gen_wnaf_val::<N>(t, w);
+    wnaf_case::<N>(a, ac, w, o)
+}
+
+/// window 63 (the largest documented one) for every width, kept in a relation of its own
+fn wnaf63(t: &mut Tape<'_>, o: &mut Obs) -> R {
+    macro_rules! go {
+        ($($n:literal),*) => {
+            match 1 + t.below(13) {
+                $($n => {
+                    let (a, ac) = gen_wnaf_val::<$n>(t, 63);
+                    wnaf_case::<$n>(a, ac, 63, o)
+                },)*
+                _ => unreachable!(),
+            }
+        };
+    }
+    go!(1, 2, 3, 4, 5, 6, 7, 8, 9, 10, 11, 12, 13)
+}
+
+/// exhaustive: the K smallest and the K largest values of the width, NAF + relaxed NAF + windows 2..=7
+fn recode_small<const N: usize>(t: &mut Tape<'_>, o: &mut Obs) -> R {
+    let k = t.u64();
+    let top = t.below(2) == 1;
+    let sel = t.below(7) as usize;
+    let mut a = [0u64; N];
+    if top {
+        a = [u64::MAX; N];
+        a[0] = u64::MAX - k;
+    } else {
+        a[0] = k;
+    }
+    let cls = if top { "largest-values" } else { "smallest-values" };
+    if sel == 0 {
+        naf_case(&a, cls, o)
+    } else {
+        wnaf_case::<N>(a, cls, sel + 1, o)
+    }
+}
+
+fn relations(tier: Tier) -> Vec<Rel> {
+    let mut out = Vec::new();
+    let q = |n: u32| tier.pick(n, n * 20);
+    let kmax: u64 = tier.pick(4096, 32768);
+    macro_rules! reg {
+        ($($n:literal),*) => {$(
+            let words = 6 * $n + 40;
+            out.push(Rel::new(format!("arith/N{}", $n), q(30000), words, |t, o| arith::<$n>(t, o)));
+            out.push(Rel::new(format!("shift/N{}", $n), q(30000), words, |t, o| shift::<$n>(t, o)));
+            out.push(Rel::new(format!("mul/N{}", $n), q(30000), words, |t, o| mul::<$n>(t, o)));
+            out.push(Rel::new(format!("conv/N{}", $n), q(30000), words, |t, o| conv::<$n>(t, o)));
+            out.push(Rel::new(format!("const/N{}", $n), q(12000), words, |t, o| consts::<$n>(t, o)));
+            out.push(Rel::new(format!("naf/L{}", $n), q(20000), words, |t, o| naf_rel($n, t, o)));
+            out.push(Rel::new(format!("wnaf/N{}", $n), q(30000), words, |t, o| wnaf::<$n>(t, o)));
+            out.push(
+                Rel::new(format!("recode-exhaustive/N{}", $n), 0, 3, |t, o| recode_small::<$n>(t, o))
+                    .exhaustive(move || Box::new((0..kmax).flat_map(|k| (0..2u64).flat_map(move |top| (0..7u64).map(move |s| vec![k, top, s]))))),
+            );
+        )*};
+    }
+    reg!(1, 2, 3, 4, 5, 6, 7, 8, 9, 10, 11, 12, 13);
+    out.push(Rel::new("wnaf-w63/N1-13", q(40000), 2 * 13 + 16, wnaf63));
+    out
+}
+
 fn main() {
-    eprintln!("C15: check not implemented");
-    std::process::exit(2);
+    vh_core::engine::main(PropSpec {
+        id: "C15",
+        rule: "BigInt<N> for N = 1..13. Operands decoded from a proptest tape: 0, 1, 2, 3, 2^k and 2^k-1 (k next to limb boundaries half of the time), all ones, alternating limbs / bit patterns, 2^(64N)-1-small, edge limbs, small, uniform; second operands correlated 1/5 of the time (a, !a, -a, a+-1); shift amounts 0, 1, 63, 64, 65, 64N-1, 64N, 64N+1, u32::MAX, multiples of 64, uniform up to 64N+65; bit vectors shorter/equal/longer than 64N (excess bits zero); decimal strings and BigUint around 2^(64N) with leading zeros; windows 2..63 (and invalid ones); recodings additionally on values within 2^(w-1) of 2^(64N) and exhaustively on the smallest and largest values of every width. Oracle: num-bigint. Non-trivial: arith - a carry or borrow leaves some limb; shift - value != 0 and (shift >= 64 or a bit crosses a limb boundary / falls off); mul - product wider than 64 bits; conversions - value wider than one limb (or > 1 for N = 1), length != 64N, or too wide; const helpers - same; recodings - value > 3 and the recoding contains a negative digit (a carry was propagated). distinct = distinct decoded choice sequences.",
+        assumptions: &[
+            "num-bigint arithmetic, parsing and printing are correct (oracle)",
+            "from_bits_le/be are only given bit vectors whose bits beyond position 64N are zero (behaviour for wider values is not documented)",
+            "const_num_bits is only checked on values with a non-zero top limb (its only use: moduli); montgomery_r/r2 and two_adic_* on odd values >= 3",
+        ],
+        relations,
+    })
 }
